@@ -1,8 +1,8 @@
 //! C13 under Miri: the schema-only oracles (pairs incl. invalid/grey mutations, `FieldKey::as_bytes`
 //! - the only `unsafe` of the schema crate -, a few upgrade chains and typed round trips) on a
 //! small seeded workload. No storage, no tokio, no threads.
-//! usage: c13_miri <seed> <n_values>      (default 32 values: ~3-4 min under Miri)
-//! run:   cd harness && MIRIFLAGS=-Zmiri-disable-isolation cargo +nightly miri run --offline -p v_schema --bin c13_miri -- 1 32
+//! usage: c13_miri <seed> <n_values>      (default 20 values: ~2 min under Miri on an idle core, + ~1.5 min first build)
+//! run:   cd harness && MIRIFLAGS=-Zmiri-disable-isolation cargo +nightly miri run --offline -p v_schema --bin c13_miri -- 1 20
 //! The last line `MIRI-C13 done ...` summarises what was executed (parsed by c13's thorough tier).
 
 use v_schema::oracle::{pair_case, typed_roundtrip, upgrade_case};
@@ -11,7 +11,7 @@ use vcore::{Rng, Stats};
 fn main() {
     let args: Vec<String> = std::env::args().collect();
     let seed: u64 = args.get(1).and_then(|s| s.parse().ok()).unwrap_or(1);
-    let n: u64 = args.get(2).and_then(|s| s.parse().ok()).unwrap_or(32);
+    let n: u64 = args.get(2).and_then(|s| s.parse().ok()).unwrap_or(20);
     v_schema::generate::set_small(true);
     let mut st = Stats::default();
     let progress = std::env::var_os("C13_MIRI_PROGRESS").is_some();
